@@ -156,6 +156,7 @@ type Endpoint struct {
 	streamCh chan net.Conn
 	closed   atomic.Bool // Shutdown called by the owner
 	dead     atomic.Bool // crashed: black hole
+	hung     atomic.Bool // hung process: accepts connections, never reads
 	// counters
 	WritesOK      atomic.Int64
 	WritesClosed  atomic.Int64 // attempts after Shutdown
@@ -203,8 +204,12 @@ func (e *Endpoint) Shutdown() error {
 }
 
 // Crash turns the endpoint into a black hole (no RST, no replies).
-func (e *Endpoint) Crash()      { e.dead.Store(true) }
-func (e *Endpoint) IsDown() bool { return e.dead.Load() || e.closed.Load() }
+func (e *Endpoint) Crash() { e.dead.Store(true) }
+
+// Hang models a hung process: datagrams vanish, TCP connections are still
+// accepted by the kernel but never read or answered.
+func (e *Endpoint) Hang()        { e.hung.Store(true) }
+func (e *Endpoint) IsDown() bool { return e.dead.Load() || e.closed.Load() || e.hung.Load() }
 
 func (e *Endpoint) WriteTo(b []byte, addr string) (time.Time, error) {
 	return e.WriteToAddress(b, memberlist.Address{Addr: addr})
@@ -342,6 +347,17 @@ func (e *Endpoint) DialAddressTimeout(a memberlist.Address, timeout time.Duratio
 	dst := n.eps[a.Addr]
 	blocked := n.blocked[[2]string{e.Addr, a.Addr}] || n.blocked[[2]string{a.Addr, e.Addr}]
 	n.mu.Unlock()
+	if dst != nil && dst.hung.Load() && !blocked {
+		n.mu.Lock()
+		n.connSeq++
+		id := n.connSeq
+		n.mu.Unlock()
+		c := newConnPair(n, id, e.Addr, dst.Addr)
+		n.mu.Lock()
+		n.conns = append(n.conns, c)
+		n.mu.Unlock()
+		return c.Dialer, nil // nobody will ever read the other end
+	}
 	if dst != nil && dst.closed.Load() && !dst.dead.Load() && !blocked {
 		// host up, listener gone: connection refused at once
 		return nil, &net.OpError{Op: "dial", Net: "tcp", Err: os.NewSyscallError("connect", syscall.ECONNREFUSED)}
